@@ -18,12 +18,12 @@ LEVEL = 'exploration'
 TECHNIQUE = ('stateful / history-based: Hypothesis-generated operation sequences over the public edit API (handles into '
              'nested sub-edits, bursts of refinement without reads) and bounded-exhaustive interleavings on fixed pairs, '
              'x quiet/colour printer settings, compared with a reference run under the canonical driver')
-RULE = ("[also: a 'lazy' operation starts a listing (edits() is a generator), takes 0-3 items and leaves it suspended while the history continues; finished at the end it must name exactly the sub-edits a fresh listing names; every has_non_zero_cost() answer given during a history is compared with the edit's final cost; a multiset family (lists read as multisets, with duplicates); sub-edit listings repeated within a history must name the same edits; a family of lists of records with long keys exercises cost ties in the last alignment cell; a high-volume 'light' job (record lists and lists of variants of one or two base records) compares only three drivers: refine to the end, list sub-edits first then refine, TreeNode.diff] A case is (pair, options, printer config {quiet, colour}, history). The history is a list of operations "
+RULE = ("[also: len(edit) and bool(edit) are history operations too; a 'lazy' operation starts a listing (edits() is a generator), takes 0-3 items and leaves it suspended while the history continues; finished at the end it must name exactly the sub-edits a fresh listing names; every has_non_zero_cost() answer given during a history is compared with the edit's final cost; a multiset family (lists read as multisets, with duplicates); sub-edit listings repeated within a history must name the same edits; a family of lists of records with long keys exercises cost ties in the last alignment cell; a high-volume 'light' job (record lists and lists of variants of one or two base records) compares only three drivers: refine to the end, list sub-edits first then refine, TreeNode.diff] A case is (pair, options, printer config {quiet, colour}, history). The history is a list of operations "
         "[bounds | tighten xk with no read in between | is_complete | valid | has_non_zero_cost | edits (sub-edits join "
         "the handle pool, so nested edits are driven directly and out of order) | edits twice], each applied to a handle "
         "drawn from the pool (initially the root edit). Generated: up to 30 (quick) / 80 (thorough) operations with rule "
         "weights favouring refinement bursts, over C01 pairs and a nested-list generator (lists of lists of lists). "
-        "Bounded exhaustive: for 41 fixed small pairs all sequences of the six root operations (bounds, tighten, is_complete, edits, has_non_zero_cost, lazy listing) up to length 4 for the first 20 pairs and 3 for the others (quick) / "
+        "Bounded exhaustive (also: the mapping-holding pairs under strategy none with len() / bool() among eight root operations up to length 3 / 4): for 44 fixed small pairs all sequences of the six root operations (bounds, tighten, is_complete, edits, has_non_zero_cost, lazy listing) up to length 4 for the first 20 pairs and 3 for the others (quick) / "
         "5 (thorough). History-free sub-check: diff(), edited_cost(), get_all_edits() under every printer configuration, and their totals against the canonical driver's final cost. "
         "Oracle: no exception escapes any operation; after finishing with the canonical driver the final cost and the "
         "script signature equal those of a fresh copy refined by the canonical driver under the default printer. "
@@ -36,13 +36,13 @@ ASSUMPTIONS = [
 ]
 MANIFEST_TEXT = ("History exploration of the public edit protocol: random operation sequences on the root edit and on nested "
                  "sub-edit handles (including refinement bursts with no interleaved reads, the pattern the library itself "
-                 "uses when quiet), all interleavings of the five root operations up to a bound on 41 fixed pairs, and the "
+                 "uses when quiet), all interleavings of the five root operations up to a bound on 44 fixed pairs, and the "
                  "library's own drivers under each printer configuration; each compared with a canonical reference run.")
 MANIFEST_NOTE = "Trusts the reference run (canonical driver, default printer) on a fresh copy as the expected result."
 DESIGN_REF = 'DESIGN.md section 3, C05'
 SHRINK = {'docs': ['a', 'b'], 'lists': ['history'], 'enums': {'ds': 'auto', 'le': 'on', 'quiet': False, 'color': False}}
 
-OPS = ['bounds', 'tighten', 'is_complete', 'valid', 'non_zero', 'edits', 'edits2', 'lazy']
+OPS = ['bounds', 'tighten', 'is_complete', 'valid', 'non_zero', 'edits', 'edits2', 'lazy', 'len', 'bool']
 ROOT_OPS = ['bounds', 'tighten', 'is_complete', 'edits', 'non_zero', 'lazy']
 
 FIXED_PAIRS = [
@@ -59,6 +59,9 @@ FIXED_PAIRS = [
     ([True, [False]], [[True], False]), ({'a': None}, {'a': ''}), ([[[]]], [[[[]]]]), ([1, 'a', None], []),
     ([[1, [2]], [3]], [[1, [2, 2]], [3, 3]]), ({'a': [], 'b': {}}, {'a': {}, 'b': []}), ([[2, 1]], [[1, 2]]),
     ([['a'], ['b'], ['c']], [['c'], ['b'], ['a']]),
+    # a key present on both sides whose value needs refinement, next to a pair the matcher has to find itself
+    ({'a': 'kitten', 'b': [1, 2]}, {'a': 'sitting', 'c': [1, 2]}), ({'t': {'x': 'abc'}, 'u': 1}, {'t': {'x': 'abd'}, 'v': 1}),
+    ([{'a': 'hello', 'b': 1}], [{'a': 'help', 'c': 1}]),
     # a list of records whose alignment has an exact cost tie next to the last cell while the last pair's edit is still open
     # (input taken from the demonstration of seeded change C05-r3-m1; random generation meets such ties about once in 20000)
     ([{"beta_key": "eef"}, {"alpha_key": "efd", "beta_key": "f", "gamma_key": "gbhbefa"}],
@@ -72,7 +75,7 @@ def histories(draw, max_ops):
     ops = []
     for _ in range(n):
         op = draw(st.sampled_from(['tighten', 'tighten', 'tighten', 'bounds', 'is_complete', 'valid', 'non_zero',
-                                   'edits', 'edits', 'edits2', 'lazy']))
+                                   'edits', 'edits', 'edits2', 'lazy', 'len', 'bool']))
         h = draw(st.integers(0, 40))
         k = draw(st.integers(1, 6)) if op == 'tighten' else (draw(st.integers(0, 3)) if op == 'lazy' else 1)
         ops.append([op, h, k])
@@ -106,11 +109,31 @@ def jobs(tier):
         js.append({'kind': 'records', 'n': 40 if tier == 'quick' else 1500, 'max_ops': 6, 'max_leaves': 0, 'shard': s})
         js.append({'kind': 'multiset', 'n': 60 if tier == 'quick' else 1500, 'max_ops': 12, 'max_leaves': 0, 'shard': s})
         js.append({'kind': 'exhaustive', 'maxlen': exl, 'shard': s})
+        js.append({'kind': 'exhaustive-none', 'maxlen': 3 if tier == 'quick' else 4, 'shard': s})
         js.append({'kind': 'light', 'n': 250 if tier == 'quick' else 12000, 'shard': s})
     return js
 
 
+def _has_mapping(d):
+    return isinstance(d, dict) or (isinstance(d, list) and any(_has_mapping(x) for x in d))
+
+
 def run_job(job, seed, sink):
+    if job['kind'] == 'exhaustive-none':
+        # the pairs that contain mappings, under the 'none' strategy (fixed-key mapping edits), with len() and bool() among the
+        # operations
+        ops = ROOT_OPS + ['len', 'bool']
+        i = 0
+        for a, b in FIXED_PAIRS:
+            if not (_has_mapping(a) and _has_mapping(b)):
+                continue
+            for n in range(job['maxlen'] + 1):
+                for seq in itertools.product(ops, repeat=n):
+                    if i % 16 == job['shard']:
+                        sink({'a': a, 'b': b, 'ds': 'none', 'le': 'on', 'quiet': (i // 16) % 2 == 1, 'color': False,
+                              'history': [[op, 0, 2 if op == 'tighten' else 1] for op in seq]})
+                    i += 1
+        return
     if job['kind'] == 'light':
         strat = st.one_of(gen.record_cases(), gen.record_variant_cases()).map(
             lambda c: {'a': c['a'], 'b': c['b'], 'ds': c['ds'], 'le': c['le'], 'light': True})
@@ -221,6 +244,11 @@ def check(case):
                     _ = x.valid
                 elif op == 'non_zero':
                     answers.append((step, x, x.has_non_zero_cost()))
+                elif op == 'len':
+                    if hasattr(type(x), '__len__'):
+                        len(x)              # sized edits: asking for the size is a query like any other
+                elif op == 'bool':
+                    bool(x)
                 elif op == 'lazy':
                     # edits() is a generator: start a listing, take k items and leave it suspended while the history goes on;
                     # it is finished at the end and must then have named every sub-edit exactly once
